@@ -71,9 +71,21 @@ type Transport struct {
 	Stalled bool
 	obj     *vsched.Obj
 	x       *vsched.Exec
+	// UnsafeWriteSide models a transport implementation whose write side is plain memory
+	// (the shipped write-buffered wrapper: bufio.Writer is not safe for concurrent use; its Close
+	// flushes too). In race-mode runs Write/Writev/Flush/Close then count as plain writes to one
+	// location and Read as a plain write to another.
+	UnsafeWriteSide bool
+	wstate, rstate  byte
 }
 
 func NewTransport(name string) *Transport { return &Transport{Name: name} }
+
+func (m *Transport) plainW(method string) {
+	if m.UnsafeWriteSide {
+		vsched.Plain(&m.wstate, "transport(write-buffered wrapper state)|Transport."+method+"|mock", true)
+	}
+}
 
 func (m *Transport) o() *vsched.Obj {
 	if vsched.X == nil {
@@ -213,6 +225,7 @@ func (m *Transport) writeFault() error {
 
 func (m *Transport) Write(p []byte) (int, error) {
 	vsched.Op("T.Write", m.o(), rw, func() bool { return !m.Stalled || m.IsClosed })
+	m.plainW("Write")
 	if err := m.writeFault(); err != nil {
 		m.ev('W', append([]byte(nil), p...), 1, true)
 		return 0, err
@@ -224,6 +237,7 @@ func (m *Transport) Write(p []byte) (int, error) {
 
 func (m *Transport) Writev(b transport.Buffers) (int64, error) {
 	vsched.Op("T.Writev", m.o(), rw, func() bool { return !m.Stalled || m.IsClosed })
+	m.plainW("Writev")
 	var data []byte
 	for _, x := range b {
 		data = append(data, x...)
@@ -239,6 +253,7 @@ func (m *Transport) Writev(b transport.Buffers) (int64, error) {
 
 func (m *Transport) Flush() error {
 	vsched.Op("T.Flush", m.o(), rw, nil)
+	m.plainW("Flush")
 	m.flushes++
 	if m.IsClosed {
 		m.ev('F', nil, 0, true)
@@ -258,6 +273,7 @@ func (m *Transport) Flush() error {
 
 func (m *Transport) Close() error {
 	vsched.Op("T.Close", m.o(), rw, nil)
+	m.plainW("Close")
 	m.ev('C', nil, 0, m.IsClosed)
 	m.Closes++
 	if m.IsClosed {
